@@ -259,6 +259,29 @@ def handleSimilarity (cmd : String) (rest : List String) : Option String :=
         s!"{showRat (individualSimilarity x y o)} {b2s (t || rest.any rawDateTies)}"
       | _, _, _ => "bad-op"
     | _ => some "bad-op"
+  | "sim-indif" =>
+    -- (*IndividualNode).Similarity on the binary64 model, the estimated dates selected with the
+    -- float64 comparison; `skip` outside the domain of Years() or of the options
+    match rest with
+    | [x, y, o] =>
+      let raw (t : String) : Option Sim.RawIndi :=
+        match t.splitOn ":" with
+        | [id, names, births, baptisms, deaths, burials] => do
+          let id ← id.toNat?
+          let names ← parseNames names
+          let births ← parseStrs births
+          let baptisms ← parseStrs baptisms
+          let deaths ← parseStrs deaths
+          let burials ← parseStrs burials
+          pure ⟨id, names, births, baptisms, deaths, burials⟩
+        | _ => none
+      some <| match raw x, raw y, parseOpts o with
+      | some x, some y, some o =>
+        if o.maxYears ≤ 0 || o.nameToDateRatio < 0 || o.nameToDateRatio > 1 || o.jaroBoostThreshold < 0 then "skip"
+        else if !(F64.rawInDomain x && F64.rawInDomain y) then "skip"
+        else let v := F64.normalize (F64.indiSimilarityF (F64.rawToIndiF x) (F64.rawToIndiF y) o); s!"{v.mant} {v.frac}"
+      | _, _, _ => "skip"
+    | _ => some "bad-op"
   | "sim-list" =>
     match rest with
     | [xs, ys, o] => some <| match parseIndis xs, parseIndis ys, parseOpts o with
